@@ -278,7 +278,7 @@ static bool inited;
 /* fault-free tokens, produced once per harness process */
 static json_t *T_hs, *T_hs_bad, *T_es, *T_es_bad, *T_rs, *T_rs_bad, *T_multi;
 static json_t *E_kwgcm, *E_kwgcm_bad, *E_cbc, *E_cbc_bad, *E_zip, *E_pbes2, *E_ecdhes, *E_rsa, *E_gcmkw, *E_dir;
-static json_t *X_exc, *P_ec, *P_ec2, *P_rsa, *KS_multi, *KS_multi_pub;
+static json_t *X_exc, *P_ec, *P_ec2, *P_rsa, *KS_multi, *KS_multi_pub, *K_hs_as512, *K_hs_as384;
 
 static void
 quiet_err(void *misc, const char *file, int line, uint64_t err, const char *fmt, va_list ap)
@@ -377,6 +377,10 @@ init_once(void)
     T_rs = mkjws(key("rsa"), "RS256");
     T_rs_bad = tamper(T_rs, "signature");
     KS_multi = json_pack("{s:[O,O]}", "keys", key("oct"), key("ec"));
+    K_hs_as512 = json_deep_copy(key("oct"));
+    json_object_set_new(K_hs_as512, "alg", json_string("HS512"));
+    K_hs_as384 = json_deep_copy(key("oct"));
+    json_object_set_new(K_hs_as384, "alg", json_string("HS384"));
     KS_multi_pub = json_pack("{s:[O,O]}", "keys", key("oct"), P_ec);
     T_multi = json_pack("{s:o}", "payload", jose_b64_enc(PT, PTL));
     need(jose_jws_sig(CFG, T_multi, NULL, KS_multi), "multi");
@@ -623,6 +627,36 @@ static void s_gen_oct(void) { gen_common("{\"kty\":\"oct\",\"bytes\":16}", "oct"
 static void s_gen_oct_alg(void) { gen_common("{\"alg\":\"A128GCM\"}", "oct"); }
 static void s_gen_ec(void) { gen_common("{\"alg\":\"ES256\"}", "EC"); }
 static void s_gen_rsa(void) { gen_common("{\"kty\":\"RSA\",\"bits\":2048}", "RSA"); }
+
+/* templates every run must REFUSE (the named algorithm contradicts kty / bytes / crv): a failed allocation must not
+ * turn the refusal into a key -- one scenario per preparation hook */
+static void
+gen_refuse(const char *tmpl)
+{
+    json_t *jwk = json_loads(tmpl, 0, NULL);
+    BEGIN();
+    R.ok = jose_jwk_gen(CFG, jwk);
+    END();
+    if (R.ok) {
+        R.prod = shapes(jwk);
+        bad("a contradictory template was served");
+    }
+    RELEASE();
+    json_decref(jwk);
+}
+
+static void s_genno_hmac(void) { gen_refuse("{\"alg\":\"HS256\",\"kty\":\"oct\",\"bytes\":16}"); }
+static void s_genno_aesgcm(void) { gen_refuse("{\"alg\":\"A128GCM\",\"kty\":\"oct\",\"bytes\":32}"); }
+static void s_genno_aescbch(void) { gen_refuse("{\"alg\":\"A128CBC-HS256\",\"kty\":\"oct\",\"bytes\":16}"); }
+static void s_genno_aeskw(void) { gen_refuse("{\"alg\":\"A128KW\",\"kty\":\"oct\",\"bytes\":32}"); }
+static void s_genno_aesgcmkw(void) { gen_refuse("{\"alg\":\"A128GCMKW\",\"kty\":\"oct\",\"bytes\":32}"); }
+static void s_genno_pbes2(void) { gen_refuse("{\"alg\":\"PBES2-HS256+A128KW\",\"kty\":\"EC\",\"crv\":\"P-256\"}"); }
+static void s_genno_ecdsa(void) { gen_refuse("{\"alg\":\"ES256\",\"kty\":\"EC\",\"crv\":\"P-384\"}"); }
+static void s_genno_ecdh(void) { gen_refuse("{\"alg\":\"ECDH\",\"kty\":\"oct\",\"bytes\":16}"); }
+static void s_genno_ecmr(void) { gen_refuse("{\"alg\":\"ECMR\",\"kty\":\"oct\",\"bytes\":16}"); }
+static void s_genno_ecdhes(void) { gen_refuse("{\"alg\":\"ECDH-ES\",\"kty\":\"oct\",\"bytes\":16}"); }
+static void s_genno_rsaes(void) { gen_refuse("{\"alg\":\"RSA-OAEP\",\"kty\":\"EC\",\"crv\":\"P-256\"}"); }
+static void s_genno_rsassa(void) { gen_refuse("{\"alg\":\"RS256\",\"kty\":\"oct\",\"bytes\":32}"); }
 
 static void
 pub_common(const json_t *prv, const json_t *want)
@@ -900,6 +934,9 @@ static void s_ver_rs256_bad(void) { ver_common(T_rs_bad, P_rsa, false, false, fa
 static void s_ver_multi_all(void) { ver_common(T_multi, KS_multi_pub, true, true, false); }
 static void s_ver_multi_any(void) { ver_common(T_multi, KS_multi_pub, false, true, false); }
 static void s_ver_wrongkey(void) { ver_common(T_hs, key("oct2"), false, false, false); }
+/* the RIGHT octets in a key that declares ANOTHER algorithm: refused whatever allocation fails */
+static void s_ver_algmismatch(void) { ver_common(T_hs, K_hs_as512, false, false, false); }
+static void s_verio_algmismatch(void) { ver_common(T_hs, K_hs_as384, false, false, true); }
 static void s_verio_hs256(void) { ver_common(T_hs, key("oct"), false, true, true); }
 static void s_verio_hs256_bad(void) { ver_common(T_hs_bad, key("oct"), false, false, true); }
 static void s_verio_es256(void) { ver_common(T_es, P_ec, false, true, true); }
@@ -1525,6 +1562,9 @@ typedef struct { const char *name; void (*fn)(void); } scen_t;
 
 static const scen_t scens[] = {
     { "gen-oct", s_gen_oct }, { "gen-oct-alg", s_gen_oct_alg }, { "gen-ec", s_gen_ec }, { "gen-rsa", s_gen_rsa },
+    { "genno-hmac", s_genno_hmac }, { "genno-aesgcm", s_genno_aesgcm }, { "genno-aescbch", s_genno_aescbch }, { "genno-aeskw", s_genno_aeskw },
+    { "genno-aesgcmkw", s_genno_aesgcmkw }, { "genno-pbes2", s_genno_pbes2 }, { "genno-ecdsa", s_genno_ecdsa }, { "genno-ecdh", s_genno_ecdh },
+    { "genno-ecmr", s_genno_ecmr }, { "genno-ecdhes", s_genno_ecdhes }, { "genno-rsaes", s_genno_rsaes }, { "genno-rsassa", s_genno_rsassa },
     { "pub-ec", s_pub_ec }, { "pub-rsa", s_pub_rsa }, { "pub-oct", s_pub_oct },
     { "thp-ec", s_thp_ec }, { "thp-rsa", s_thp_rsa }, { "thp-oct", s_thp_oct }, { "thpbuf", s_thpbuf },
     { "eql", s_eql }, { "eql-neq", s_eql_neq }, { "exc", s_exc }, { "exc-ecmr", s_exc_ecmr },
@@ -1535,6 +1575,7 @@ static const scen_t scens[] = {
     { "ver-hs256", s_ver_hs256 }, { "ver-hs256-bad", s_ver_hs256_bad }, { "ver-es256", s_ver_es256 },
     { "ver-es256-bad", s_ver_es256_bad }, { "ver-rs256", s_ver_rs256 }, { "ver-rs256-bad", s_ver_rs256_bad },
     { "ver-multi-all", s_ver_multi_all }, { "ver-multi-any", s_ver_multi_any }, { "ver-wrongkey", s_ver_wrongkey },
+    { "ver-algmismatch", s_ver_algmismatch }, { "verio-algmismatch", s_verio_algmismatch },
     { "verio-hs256", s_verio_hs256 }, { "verio-hs256-bad", s_verio_hs256_bad }, { "verio-es256", s_verio_es256 },
     { "wrap", s_wrap }, { "unwrap", s_unwrap },
     { "unwrap-rsa15", s_unwrap_rsa15 }, { "unwrap-rsaoaep", s_unwrap_rsaoaep }, { "unwrap-ecdhes", s_unwrap_ecdhes },
